@@ -73,6 +73,11 @@ func TestC19(t *testing.T) {
 		s = do(do(s, evb("setTemplate", edsKey, "B")), ev("R_eds", edsKey))                             // B is the canary again
 		return s
 	}
+	// the user asks for more canary nodes than there are nodes while the canary runs (from then on the node selection
+	// reports a shortage at every reconcile) and pauses / unpauses the canary: the commands are accepted, so the state
+	// has to follow
+	s3over := corpusS3(nodes, "1", "auto", 2, &w.Alpha{Kubectl: []string{"canary-pause", "canary-unpause"}, SpecEdits: []string{"canary-replicas=3"}})
+	s3over.name = "S3-canary-replicas-raised-beyond-the-nodes"
 	type st struct {
 		sc *w.Scenario
 		s  *w.State
@@ -81,7 +86,7 @@ func TestC19(t *testing.T) {
 	perSc := map[string]int{} // closure starts kept per scenario (a single cap would be used up by the first scenario)
 	seenSc := map[string]int{}
 	k := 0
-	runWorld(t, run, []scOpt{s2, s3, s3m, s3again, s3back}, []func(*w.MonCtx){w.MonC19, w.MonC14Status, w.MonC19Effects}, 0, func(sc *w.Scenario, s *w.State, d int) {
+	runWorld(t, run, []scOpt{s2, s3, s3m, s3again, s3back, s3over}, []func(*w.MonCtx){w.MonC19, w.MonC14Status, w.MonC19Effects}, 0, func(sc *w.Scenario, s *w.State, d int) {
 		if s.Mem["lastcmd"] != "" {
 			k++
 			seenSc[sc.Name]++
